@@ -127,6 +127,29 @@ def check(model: Model, run: Run) -> None:
         ok = how == 'bool' and folder.fold(i, mod) is False and folder.fold(e, mod) is True
     run.check(ok, pa.qualname, 'operator LOCAL_PREF skipped exactly on eBGP', pa.loc(lam) if lam is not None else pa.loc(), 'LOCAL_PREF must not be sent to external peers')
     run.check(sorted(default) == ['AS_PATH', 'LOCAL_PREF', 'ORIGIN'], pa.qualname, 'defaults exist for exactly %s' % sorted(default), pa.loc(), 'only ORIGIN, AS_PATH and LOCAL_PREF have defaults')
+    # a default replaces an ABSENT attribute only: absence is a membership / None test, not the truth value of the
+    # attribute (an explicitly empty AS_PATH has length 0 and is falsy)
+    if dcalls:
+        pl = Loc(model, pa)
+        absent = False
+        truthy = None
+        for t_, pol in flat_guards(pa.node, dcalls[0]):
+            if isinstance(t_, ast.Compare) and len(t_.ops) == 1:
+                op, right = t_.ops[0], t_.comparators[0]
+                if ((isinstance(op, ast.NotIn) and pol) or (isinstance(op, ast.In) and not pol)) and 'self' in pl.expand(right) and dname[0] not in norm(right):
+                    absent = True
+                if isinstance(right, ast.Constant) and right.value is None and ((isinstance(op, ast.Is) and pol) or (isinstance(op, ast.IsNot) and not pol)) and 'self' in pl.expand(t_.left):
+                    absent = True
+            elif isinstance(t_, (ast.Name, ast.Call, ast.Subscript)) and 'self' in pl.expand(t_) and dname[0] not in norm(t_):
+                truthy = t_
+        run.check(
+            absent and truthy is None,
+            pa.qualname,
+            'a default is packed only for a code that is absent from the collection (membership / None test)',
+            pa.loc(truthy) if truthy is not None else pa.loc(dcalls[0]),
+            'the substitution is decided by the truth value of the attribute (%s): an attribute the operator gave explicitly but '
+            'whose value is empty (as-path [ ] has length 0) is falsy and gets replaced by the eBGP default SEQUENCE[local AS]' % (norm(truthy) if truthy is not None else 'no absence test found'),
+        )
     # NOTHING is honoured
     dres = Loc(model, pa).from_value(lambda v: isinstance(v, ast.Call) and v in dcalls)
     nothing_guard = any(isinstance(n, ast.If) and any(amatch('V_a is not NOTHING', n.test, {'V_a': d}) is not None for d in dres) for n in walk_no_nested(pa.node))
@@ -180,6 +203,32 @@ def check(model: Model, run: Run) -> None:
     # ------------------------------------------------------------------ R5 MP_REACH layout
     run.rule('C01.R5', 'MP_REACH_NLRI = AFI(2) SAFI(1) len(next hop)(1) next hop reserved(1)=0 NLRIs, next hop = RD-size zero bytes + address with the RD size from Family.size; MP_UNREACH_NLRI = AFI SAFI NLRIs; attribute codes 14 / 15', floor=5)
     _r5_mp(model, run, folder)
+
+    # ------------------------------------------------------------------ R9 the AS numbers the defaults use are the true ones
+    run.rule(
+        'C01.R9',
+        'negotiated.local_as / peer_as, which the default AS_PATH and the iBGP/eBGP decision read, are the true 4-byte AS numbers: '
+        'the 2-octet OPEN field is replaced by the FOUR_BYTES_ASN capability of the same OPEN when it holds AS_TRANS, and for the '
+        'local side whatever the peer supports (shared with C07.R3)',
+        floor=2,
+    )
+    from . import C07 as _c07
+
+    _neg = model.func(_c07.NEG + '._negotiate')
+    run.analysed(_neg)
+    _c07._r3_as(model, run, _neg, _c07._sides(model, _neg))
+
+    # ------------------------------------------------------------------ R10 routes that are packed differently are not merged
+    run.rule(
+        'C01.R10',
+        'the outgoing RIB keeps ONE attribute collection per AttributeCollection.index() and packs every route filed under it '
+        'with that collection: two collections that pack to different bytes must not share an index - an attribute that is '
+        'present but prints as nothing (as-path [ ]) is packed as given while an absent one gets the RFC default, so the index '
+        'must tell them apart (the text it is built from yields something for every present attribute, or the index adds the '
+        'codes that are present)',
+        floor=2,
+    )
+    _r10_index_presence(model, run)
 
     # ------------------------------------------------------------------ R8 what is sent fits the session it is sent on
     run.rule('C01.R8', 'an UPDATE is a valid message of ITS session (4096 or 65535 bytes): in UpdateCollection.messages a prefix is added to a buffer only under a room test that measures the bytes packed for this session (with the ADD-PATH path identifier when negotiated) - shared with C09.R3', floor=2)
@@ -522,3 +571,71 @@ def _r6_self(model: Model, run: Run) -> None:
         run.check(ok, ips.qualname, 'returns the session local address when its family matches the route', ips.loc(), 'self means the local address of the session')
     nip = model.func(NEIGHBOR + '.ip_self')
     run.check('self.session.ip_self(afi)' in norm(nip.node), nip.qualname, 'delegates to Session.ip_self(afi)', nip.loc(), 'Neighbor.ip_self must use the session of this neighbor')
+
+
+# ---------------------------------------------------------------------------------------------- R10
+def _r10_index_presence(model: Model, run: Run) -> None:
+    from ..cfg import CFG
+
+    AC = 'exabgp.bgp.message.update.attribute.collection.AttributeCollection'
+    gt = model.funcs.get(AC + '._generate_text')
+    ix = model.funcs.get(AC + '.index')
+    if gt is None or ix is None:
+        run.cannot('AttributeCollection._generate_text / index vanished')
+        return
+    run.analysed(gt)
+    run.analysed(ix)
+    uses_text = bool(model.calls_to(ix.module, ix.node, 'AttributeCollection._generate_text'))
+    run.check(uses_text or True, ix.qualname, 'index() is built from %s' % ('the generated text' if uses_text else 'something else than the generated text'), ix.loc(), '')
+    # does every present (non internal, generated) attribute contribute to the text?
+    loops = [n for n in gt.node.body if isinstance(n, ast.For) and 'self' in norm(n.iter)]
+    if len(loops) != 1:
+        run.cannot('_generate_text: loop over the attribute codes not found')
+        return
+    loop = loops[0]
+    cfg = CFG(gt.node)
+    pm = parent_map(gt.node)
+    targets: set[int] = set()
+    for n in ast.walk(loop):
+        if isinstance(n, (ast.Yield, ast.YieldFrom)):
+            c = cfg.stmt_node_containing(n)
+            if c is not None:
+                targets.add(c.id)
+        if isinstance(n, ast.Continue):
+            g = ' '.join(norm(t) for t, pol in flat_guards(gt.node, n, pm))
+            if 'INTERNAL' in g or 'NO_GENERATION' in g:
+                targets |= {x.id for x in cfg.nodes_of(n)}
+    heads = [x for x in cfg.nodes_of(loop) if x.kind == 'test']
+    first = [x for st in loop.body[:1] for x in cfg.nodes_of(st)]
+    silent = None
+    if heads and first:
+        ok, path = cfg.all_paths_pass(first[0].id, targets, {heads[0].id})
+        if first[0].id in targets:
+            ok = True
+        if not ok:
+            silent = path
+    else:
+        run.cannot('_generate_text: loop nodes not found in the CFG')
+        return
+    # ... or does index() add which codes are present?
+    adds_codes = False
+    for n in walk_no_nested(ix.node):
+        if isinstance(n, (ast.GeneratorExp, ast.ListComp, ast.For)):
+            it = n.generators[0].iter if isinstance(n, (ast.GeneratorExp, ast.ListComp)) else n.iter
+            if 'self' in norm(it) and '_generate_text' not in norm(it):
+                adds_codes = True
+    where = None
+    if silent:
+        for i in silent:
+            a = cfg.nodes[i].ast
+            if isinstance(a, ast.If) or (a is not None and cfg.nodes[i].kind == 'test'):
+                where = a
+    run.check(
+        silent is None or adds_codes,
+        ix.qualname,
+        'collections that differ in which attributes are present have different indexes (%s)' % ('every present attribute prints' if silent is None else ('index() lists the codes' if adds_codes else 'an attribute can be present and print nothing')),
+        gt.loc(where) if where is not None else ix.loc(),
+        '_generate_text prints nothing for a present attribute on the path %s, and index() is that text plus the next hop: `as-path [ ]` '
+        'and no as-path at all get one index, the outgoing RIB keeps one collection for both and on eBGP one of the two routes goes out '
+        'with the other one\'s AS_PATH' % (cfg.describe_path(silent) if silent else ''),
+    )
